@@ -580,13 +580,31 @@ def run(ctx):
     if paths:
         # D3 guards
         guards = {}
+        direct = set()
+        LENP1 = ("call", "core::slice::<impl [T]>::len", ("u8",), (("param", 1),), None)
+
+        def same_end(r, E):
+            return r == E or (length_of(r) is not None and length_of(r) == ("param", 1) and length_of(E) is not None and length_of(E) == ("param", 1))
         for p in paths:
             for e in p.events:
-                if not (ev_is(e, "Vec::push") and e.dest["ty"] == "()" and isinstance(e.args[1], tuple) and e.args[1][0] == "agg" and e.args[1][1] == "tuple" and len(e.args[1][4]) == 2):
+                if not (ev_is(e, "Vec::push") and e.dest["ty"] == "()" and isinstance(e.args[1], tuple)):
                     continue
                 if e.bb in guards:
                     continue
-                S, E = e.args[1][4]
+                if e.args[1][0] == "agg" and e.args[1][1] == "tuple" and len(e.args[1][4]) == 2:
+                    S, E = e.args[1][4]
+                else:
+                    # the single-pass spelling: the line is parsed and its entry pushed right where the two-pass spelling records (start, end)
+                    fb_ = find_calls(e.args[1], EFB)
+                    sl_ = strip_refs(call_args(fb_[0])[0]) if len(fb_) == 1 else None
+                    rg_ = canon_range(call_args(sl_)[0], call_args(sl_)[1]) if sl_ is not None and is_index_call(sl_) and strip_refs(call_args(sl_)[0]) == ("param", 1) else None
+                    if rg_ is None or not has_try(e.args[1]) or not mentions(e.args[0], lambda s_: s_[0] == "field" and s_[3] == "entries"):
+                        continue
+                    s0_, e0_ = strip_refs(rg_[0]), strip_refs(rg_[1])
+                    if isinstance(s0_, tuple) and isinstance(e0_, tuple) and s0_[0] == "field" and e0_[0] == "field" and s0_[1] == e0_[1] and (s0_[2], e0_[2]) == (0, 1) and is_elem(s0_):
+                        continue        # the second pass of the two-pass spelling: it cuts at recorded pairs, it does not decide where lines are
+                    S, E = rg_[0], (LENP1 if rg_[1] == LEN else rg_[1])
+                    direct.add(e.bb)
                 atoms = []
                 for c in p.conds():
                     if c.bb == e.bb:
@@ -601,7 +619,7 @@ def run(ctx):
                             l, r = r, l
                             op = {"Gt": "Lt", "Ge": "Le"}[op]
                         # now l op r with op in Lt/Le ; want r == E
-                        if r != E:
+                        if not same_end(r, E):
                             continue
                         off = 0
                         x = l
@@ -635,10 +653,21 @@ def run(ctx):
         scan_transfer(ctx, body, paths, guards)
         # D2 producer: entries = [PlistEntry::from_bytes(&bytes[s..e])? for (s, e) in recorded lines], in recording order; recognised as a push loop
         #              or as lines.into_iter().map(..).collect::<Result<Vec<_>>>()? (lib.accumulation)
-        rec = {g[3].args[0][1][1] for g in guards.values() if isinstance(g[3].args[0], tuple) and g[3].args[0][0] == "refmut"}
+        rec = {g[3].args[0][1][1] for g in guards.values() if isinstance(g[3].args[0], tuple) and g[3].args[0][0] == "refmut" and isinstance(g[3].args[0][1], tuple) and g[3].args[0][1][0] == "loc"}
         oks = [p for p in ret_paths(paths) if unwrap_ok(p.end[1]) is not None]
         ctx.floor("D2-PRODUCER", PFB, "Ok-returning paths", len(oks), 1)
         accs = []
+        if guards and direct == set(guards):
+            # single pass: every recording site pushes from_bytes(&bytes[start..end])? onto the returned entries itself; the entries are in scan order
+            # by construction, and nothing else may touch them
+            retd = all(mentions(unwrap_ok(p.end[1]), lambda s_: s_[0] in ("havoc", "mutated")) or (agg_variant(unwrap_ok(p.end[1])) and "entries" in (unwrap_ok(p.end[1])[5] or ())) for p in oks)
+            ctx.check(retd, "D2-PRODUCER", PFB, "push@entries", "entries = from_bytes(&bytes[s..e])? pushed at each recording site, in scan order (single-pass form)",
+                      "the entries pushed at the recording sites are not what is returned", fn_span(body))
+            only_appended(ctx, "D2-PRODUCER", PFB, "plist.entries", lambda t: mentions(t, lambda s: s[0] == "field" and s[3] == "entries"))
+            oks = []
+        elif direct:
+            ctx.violation("D2-PRODUCER", PFB, "push@entries", "the recording sites mix the two-pass and the single-pass spelling", fn_span(body))
+            oks = []
         for p in oks[:1]:
             v = unwrap_ok(p.end[1])
             ent = None
@@ -674,7 +703,8 @@ def run(ctx):
         if accs and accs[0] is not None and accs[0]["form"] == "loop":
             only_appended(ctx, "D2-PRODUCER", PFB, "plist.entries", lambda t: mentions(t, lambda s: s[0] == "field" and s[3] == "entries"))
         recl = rec
-        only_appended(ctx, "D2-PRODUCER", PFB, "recorded-lines", lambda t: isinstance(t, tuple) and t[0] == "loc" and t[1] in recl, floor=2)
+        if not direct:
+            only_appended(ctx, "D2-PRODUCER", PFB, "recorded-lines", lambda t: isinstance(t, tuple) and t[0] == "loc" and t[1] in recl, floor=2)
         errprop(ctx, PFB, paths, body, rule="D2-ERRPROP", no_effects_after_error=("Vec::push",), floor=1)
 
     # ---- D4
